@@ -35,6 +35,24 @@ def E(t):
 def run(ctx):
   i2f = ctx.func('audio_io:int16_samples_to_float32')
   f2i = ctx.func('audio_io:float_samples_to_int16')
+  # location-independent: int16 -> float must *divide* by the scale.  IEEE division is correctly rounded; multiplying by a
+  # precomputed (already rounded) reciprocal is not the same function: for ~2% of the 65536 sample values the product is one
+  # ulp below the quotient, and the truncating cast back to int16 then lands on the neighbouring integer
+  for n in ast.walk(i2f.node):
+    ops = None
+    if isinstance(n, ast.BinOp) and isinstance(n.op, ast.Mult):
+      ops = [n.left, n.right]
+    elif isinstance(n, ast.Call) and (dotted(n.func) or '').split('.')[-1] == 'multiply' and len(n.args) >= 2:
+      ops = list(n.args[:2])
+    if not ops:
+      continue
+    for o in ops:
+      x = U.expand_locals(i2f.node, o, i2f.module.assigns)
+      recip = [d for d in ast.walk(x) if isinstance(d, ast.BinOp) and isinstance(d.op, ast.Div) and U.const_value(d.left) in (1, 1.0)]
+      if recip:
+        ctx.ob('SCALE/divide-not-reciprocal', i2f, n, False, '%s multiplies the samples by the reciprocal %s instead of dividing by the scale: the rounded reciprocal times x is not the '
+               'correctly rounded x / scale, so some values come back from float_samples_to_int16 as their neighbour (|x| - 1) and the round trip is not lossless' % (
+                   norm_text(n)[:80], norm_text(recip[0])), construct='int16 -> float divides by the scale', definite=True)
   r1 = i2f.node.body[-1]
   r2 = f2i.node.body[-1]
   s1 = s2 = None
